@@ -207,6 +207,12 @@ async def case_links():
     import aioftp
 
     out = {"steps": [], "verdicts": []}
+    # (a file system that takes no links is no place for this case)
+    try:
+        with tempfile.TemporaryDirectory() as d:
+            _link_tree(d)
+    except OSError as e:
+        return {"steps": [], "verdicts": [], "skipped": "this file system takes no links: %s" % e}
     # (1) upload through a link, then every other name
     for cls in (aioftp.PathIO, aioftp.AsyncPathIO):
         with tempfile.TemporaryDirectory() as d:
@@ -335,6 +341,8 @@ def judge(pid, case):
         rep = child(case, ENVS[name])
         reports[name] = rep
         inp = {"kind": "environment", "case": case, "environment": name}
+        if "skipped" in rep:
+            continue
         if "error" in rep:
             fails.append({"input": inp, "what": "the case %r did not run to its end in the environment %r (%s)" % (case, name, rep["error"]), "signature": "%s:environment:%s:failed" % (pid, case)})
             continue
